@@ -91,3 +91,9 @@ func lastCallee[F any](t traceT, f F) bool { return t.n > 0 }
 // ghostIntAtEntry(name, key): the ghost field as it was when the function (or
 // the call, at a call site) started — for a key computed in the current state.
 func ghostIntAtEntry(name string, key interface{}) int { return 0 }
+
+// sameStart(a, b): a and b start at the same element of the same backing array.
+func sameStart[T any](a, b []T) bool { return cap(a) > 0 && cap(b) > 0 && &a[:1][0] == &b[:1][0] }
+
+// verifTriggerSink marks a term as part of a quantifier trigger (lemma `trigger` clauses).
+func verifTriggerSink[T any](x T) {}
